@@ -12,6 +12,13 @@ CLAIMED = {
          "7 C19"),
 }
 
+CLAIMED["C17"] = ("Bounded symbolic model checking of ItemOrderTimestamp through the real time.Unix/UTC/In/After code: objects of seven vocabulary types (pointer and value forms) whose published/updated instants are fully symbolic (seconds from the zero time.Time up to 2^40, all nanoseconds, UTC or a fixed zone); the solver decides agreement with the lexicographic (sec,nsec) key, irreflexivity, asymmetry, transitivity and transitivity of incomparability on pairs/triples, nil handling, and that sort.Sort (interpreted) of 3 (quick) / 4 (thorough) such objects is newest-first for every initial order.",
+         "Instants carry no monotonic reading (built as decoders build them). Beyond 4 sorted elements and outside the stated second range nothing is claimed.",
+         "7 C17")
+CLAIMED["C14"] = ("Bounded symbolic model checking of IRI.Equals / irisEqual / IRIs.Contains through the real net/url, path/filepath and strings code. IRIs are built from abstract components with symbolic letters (host letter with case, port, 0-2 path segments with case, 0-2 query pairs over [a-b]=[0-1]) plus a presentation (scheme variant, trailing slash, ./, x/../, //, fragment, query order); equivalence is known by construction and the solver decides that Equals agrees with it, is symmetric and reflexive, transitive on triples, and that IRIs.Contains agrees. Arbitrary byte strings up to 1x1 (quick) / 3x2 (thorough) bytes: reflexive, symmetric.",
+         "Hosts are one letter + .ex, segments one letter; longer components, more than two segments/pairs, and arbitrary strings beyond the stated lengths are outside the claim. Map iteration order of url.Values is insertion order.",
+         "7 C14")
+
 NOT_YET = {}
 
 def main():
